@@ -4,7 +4,7 @@ from vlib import *
 
 MODULES = ["Mimium.Props.C15"]
 WORK = os.path.join(VERIF, "work")
-FIELDS = ["diagn", "diag", "bc", "bcxn", "bcx", "wasm", "mirn", "mir", "sk", "out", "rust"]
+FIELDS = ["diag", "bc", "bcx", "wasm", "mir", "sk", "out", "rust"]
 INVARIANT_KINDS = {"max_by_strict_key", "find_unique_key", "sum", "any_all", "collect_map_set", "sort_after_collect",
                    "foreach_independent"}
 
@@ -549,24 +549,18 @@ def main(ctx, args):
         ctx.coverage["heavy_targets(reduced schedule)"] = len(heavy)
     ctx.coverage["differential_wall_s"] = round(time.time() - t0, 1)
     # ---- decide
+    # every listed finding with a witness file must name its target; a nondeterministic target is excused only if it IS such
+    # a witness (no class-shaped exemption is left: F17 raw argument ids, F19 diagnostics order, F20 type-scheme numbering
+    # are repaired, so raw listings and the order of diagnostics are compared as they come)
     known_targets = {k["target"]: k for k in known if "target" in k}
     nondet = [p for p in problems if p["kind"] == "nondeterministic"]
     other = [p for p in problems if p["kind"] != "nondeterministic"]
     hits = collections.Counter()
     new = []
-    f17 = next((k for k in known if k.get("class") == "mir-listing-only"), None)
-    f20 = next((k for k in known if k.get("class") == "scheme-id-numbering"), None)
-    f19 = next((k for k in known if k.get("class") == "diagnostics-order-only"), None)
     for p in nondet:
         rel = relname(p["target"])
-        if rel in known_targets and (known_targets[rel].get("class") is None or known_targets[rel]["id"] in ("F20", "F19b")):
+        if rel in known_targets:
             hits[known_targets[rel]["id"]] += 1
-        elif f17 and p.get("differs_in") == ["mir"]:
-            hits[f17["id"]] += 1
-        elif f19 and p.get("differs_in") == ["diag"]:
-            hits[f19["id"]] += 1   # same multiset of diagnostics, different order
-        elif f20 and set(p.get("differs_in", ["x"])) <= {"mir", "bcx"}:
-            hits[f20["id"]] += 1   # only the numbering of type-scheme variables g(n) differs (normalised forms equal)
         else:
             new.append(p)
     if new:
